@@ -138,8 +138,12 @@ class LabelProbabilityInjector(Injector):
         window_classes = np.unique(ret[from_index:to_index, target_col])
         undefined_classes = [k for k in window_classes if k not in class_probabilities]
 
-        # specified class probabilities must sum to 1 or less
-        if sum(class_probabilities.values()) > 1.0:
+        # specified class probabilities must sum to 1 or less (up to rounding,
+        # e.g. a Dirichlet draw whose components add up to 1 + 1 ulp)
+        total_probability = sum(class_probabilities.values())
+        if total_probability > 1.0 and not np.isclose(
+            total_probability, 1.0, rtol=0, atol=1e-9
+        ):
             raise ValueError(f"Probabilities in {class_probabilities} exceed 1")
 
         # args should not specify previously unseen classes
@@ -149,7 +153,7 @@ class LabelProbabilityInjector(Injector):
             )
 
         # undefined classes are resampled uniformly
-        missing_probability = 1 - sum(class_probabilities.values())
+        missing_probability = max(0.0, 1 - total_probability)
         for uc in undefined_classes:
             class_probabilities[uc] = missing_probability / len(undefined_classes)
 
@@ -177,7 +181,9 @@ class LabelProbabilityInjector(Injector):
             return self._postprocess(ret)
 
         # if classes skipped, ensure probability distribution adds to 1
-        p_leftover = (1 - sum(self._p_distribution)) / len(self._p_distribution)
+        p_leftover = max(0.0, 1 - sum(self._p_distribution)) / len(
+            self._p_distribution
+        )
         self._p_distribution = [p + p_leftover for p in self._p_distribution]
 
         # shuffled sample over window, with replacement, with weights
